@@ -10,7 +10,7 @@ Text form (one token, for case lines):  pass '/' pass ;  rule ';' rule ;  pre '~
 """
 import struct
 
-OP = dict(PUSH_BYTE=1, PUSH_SHORT=3, NEXT=25, COPY_NEXT=27, PUT_GLYPH8=28, PUT_SUBS8=29, PUT_COPY=30, INSERT=31, DELETE=32, ASSOC=33, CNTXT_ITEM=34, ATTR_SET=35,
+OP = dict(PUSH_GLYPH_ATTR_OBS=41, PUSH_FEAT=43, PUSH_BYTE=1, PUSH_SHORT=3, NEXT=25, COPY_NEXT=27, PUT_GLYPH8=28, PUT_SUBS8=29, PUT_COPY=30, INSERT=31, DELETE=32, ASSOC=33, CNTXT_ITEM=34, ATTR_SET=35,
           ATTR_SET_SLOT=38, POP_RET=48, RET_ZERO=49, RET_TRUE=50, PUSH_SLOT_ATTR=40, EQUAL=19, LESS=21, GTR=22, PUSH_ISLOT_ATTR=46, IATTR_SET=51)
 SLAT_ADVX, SLAT_SHIFTX, SLAT_SHIFTY, SLAT_ATTTO, SLAT_ATTX, SLAT_ATTY, SLAT_WITHX, SLAT_WITHY, SLAT_USER = 0, 20, 21, 2, 3, 4, 8, 9, 55
 NUM_USER = 2
@@ -31,10 +31,15 @@ def prog_to_text(prog):
         if a[0] == 'W': return 'W%d_%d' % (a[1], a[2])
         if a[0] == 'C': return 'C%d' % a[1]
         if a[0] == 'U': return 'U%d_%d' % (a[1], a[2])
+        if a[0] == 'O': return 'O' + '_'.join(str(r) for r in a[1])
         raise ValueError(a)
     def con(r):
         c = r.get('con')
-        return ('~c%d%s%d%s' % (c[0], c[1], c[2], 'u%d' % c[3] if len(c) > 3 and c[3] is not None else '') if c else '') + ('~r%d' % r['ret'] if r.get('ret') else '')
+        ext = ''
+        if c and len(c) > 3 and c[3] is not None: ext = 'u%d' % c[3]
+        if c and len(c) > 4 and c[4] is not None: ext = 'a%d' % c[4]                       # a glyph attribute of the item's glyph
+        if c and len(c) > 5 and c[5] is not None: ext = 'k%d' % c[5][2]                    # a feature of the segment: (index, id, value in force)
+        return ('~c%d%s%d%s' % (c[0], c[1], c[2], ext) if c else '') + ('~r%d' % r['ret'] if r.get('ret') else '')
     return '/'.join('%d:' % p.get('maxloop', 5) + ';'.join('%d~%s~%s%s' % (r['pre'], ','.join('.'.join(map(str, sorted(s))) for s in r['pat']),
                                                          ','.join('&'.join(act(a) for a in al) if al else '-' for al in r['acts']), con(r)) for r in p['rules']) for p in prog)
 
@@ -79,6 +84,7 @@ def compile_action(rule, classes):
             elif a[0] == 'T': bc += [OP['PUSH_BYTE'], a[1] & 255, OP['ATTR_SET_SLOT'], SLAT_ATTTO]
             elif a[0] == 'P': bc += [OP['PUSH_SHORT'], (a[1] >> 8) & 255, a[1] & 255, OP['ATTR_SET'], SLAT_ATTX, OP['PUSH_SHORT'], (a[2] >> 8) & 255, a[2] & 255, OP['ATTR_SET'], SLAT_ATTY]
             elif a[0] == 'W': bc += [OP['PUSH_SHORT'], (a[1] >> 8) & 255, a[1] & 255, OP['ATTR_SET'], SLAT_WITHX, OP['PUSH_SHORT'], (a[2] >> 8) & 255, a[2] & 255, OP['ATTR_SET'], SLAT_WITHY]
+            elif a[0] == 'O': bc += [OP['ASSOC'], len(a[1])] + [r & 255 for r in a[1]]
             elif a[0] == 'D': deleted = True
         if deleted:
             bc += [OP['DELETE']]
@@ -98,6 +104,10 @@ def compile_constraint(rule):
     item, op, val = c[0], c[1], c[2]
     user = c[3] if len(c) > 3 else None
     push = [OP['PUSH_SLOT_ATTR'], SLAT_ADVX, 0] if user is None else [OP['PUSH_ISLOT_ATTR'], SLAT_USER, 0, user]
+    if len(c) > 4 and c[4] is not None:
+        push = [OP['PUSH_GLYPH_ATTR_OBS'], c[4], 0]
+    if len(c) > 5 and c[5] is not None:
+        push = [OP['PUSH_FEAT'], c[5][0], 0]
     block = push + [OP['PUSH_SHORT'], (val >> 8) & 255, val & 255, {'l': OP['LESS'], 'g': OP['GTR'], 'e': OP['EQUAL']}[op]]
     return bytes([OP['CNTXT_ITEM'], (item - rule['pre']) & 255, len(block)] + block + [OP['POP_RET']])
 
@@ -249,3 +259,33 @@ def base_info(data):
 def build_font(base_data, prog, n_subst=None):
     ng, _ = base_info(base_data)
     return replace_table(base_data, b'Silf', compile_silf(prog, ng - 1, n_subst))
+
+
+# ------------------------------------------------------------------ glyph attributes and features of the compiled fonts
+N_GATTR = 8                     # attributes 0..3 (pseudo / breakweight / directionality / mirroring) are 0; 4..7 carry test values
+FEATS = [(0x101, [0, 1, 2, 3]), (0x202, [0, 5])]            # (feature id, setting values; the first is the default)
+
+
+def gattr(g, k):
+    """the value of glyph attribute k of glyph g in an enriched font"""
+    return ((g * 7 + k * 13) % 23) - 5 if 4 <= k < N_GATTR else 0
+
+
+def enrich(base_data):
+    """the base font with a Glat / Gloc pair that gives every glyph the attributes of gattr() and a Feat table with FEATS"""
+    ng, _ = base_info(base_data)
+    glat, offs = struct.pack('>I', 0x00010000), []
+    for g in range(ng):
+        offs.append(len(glat))
+        glat += bytes([4, N_GATTR - 4]) + b''.join(struct.pack('>h', gattr(g, k)) for k in range(4, N_GATTR))
+    offs.append(len(glat))
+    gloc = struct.pack('>IHH', 0x00010000, 0, N_GATTR) + b''.join(struct.pack('>H', o) for o in offs)
+    hdr = struct.pack('>IHHI', 0x00010000, len(FEATS), 0, 0)
+    so = len(hdr) + 12 * len(FEATS)
+    recs, sets = b'', b''
+    for fid, vals in FEATS:
+        recs += struct.pack('>HHIHH', fid, len(vals), so + len(sets), 0, 256)
+        sets += b''.join(struct.pack('>hH', v, 257) for v in vals)
+    d = replace_table(base_data, b'Glat', glat)
+    d = replace_table(d, b'Gloc', gloc)
+    return replace_table(d, b'Feat', hdr + recs + sets)
